@@ -196,7 +196,7 @@ func normalizeStatement(
 
 	normalizeChildren := func(children []*sysl.Statement, parentIndex []int) error {
 		for i, child := range children {
-			err := normalizeStatement(ctx, s, app, ep, child, append(parentIndex, i))
+			err := normalizeStatement(ctx, s, app, ep, child, childIndex(parentIndex, i))
 			if err != nil {
 				return err
 			}
@@ -259,7 +259,7 @@ func normalizeStatement(
 		// and recurse on their children.
 		for i, choice := range stmt.GetAlt().Choice {
 			statement = stmtSkeleton()
-			statement.StmtIndex = append(statement.StmtIndex, i)
+			statement.StmtIndex = childIndex(stmtIndex, i)
 			statement.StmtAlt = tuple{"choice": choice.Cond}
 			if err := normalizeChildren(choice.Stmt, statement.StmtIndex); err != nil {
 				return err
@@ -274,6 +274,15 @@ func normalizeStatement(
 
 	normalizeStatementMeta(s, app, ep, stmt, stmtIndex)
 	return nil
+}
+
+// childIndex returns the position path of the i-th child of the statement at parent, in a slice of its own.
+// The rows keep the slice: appending to parent directly lets siblings share (and overwrite) its spare capacity.
+func childIndex(parent []int, i int) []int {
+	index := make([]int, len(parent)+1)
+	copy(index, parent)
+	index[len(parent)] = i
+	return index
 }
 
 func normalizeParam(
